@@ -83,6 +83,10 @@ for sd in sorted(glob.glob("/tmp/seed/*C??_?")):
                 rebased="patch.orig.diff is the author's patch; patch.diff is the same change rebased by hand on a later fix: commit" if os.path.exists(os.path.join(sd, "patch.orig.diff")) else None,
                 first_run={k: dict(exit=r["exit"], verdict=verdict(r["exit"])) for k, r in fr.items()},
                 checks_run={k: dict(exit=r["exit"], verdict=verdict(r["exit"]), summary=r["summary"]) for k, r in fn.items()},
+                how_checks_were_run="tools/run_seed_wt.sh <seed dir> <property> quick <scratch worktree>: the worktree is reset to /repo's HEAD, "
+                                    "patch.diff applied with git apply, the property's quick check run with VERIF_REPO pointing at the worktree "
+                                    "(exit 1 + VIOLATION line = caught), the worktree reset again; /repo itself is never modified. first_run for "
+                                    "rounds 4 and 5 used a snapshot of /verif taken before any change driven by that round.",
                 detected_by=[k for k, r in fn.items() if r["exit"] == 1],
                 retired=open(os.path.join(sd, "RETIRED.txt")).read().strip() if retired else None,
                 note=open(os.path.join(sd, "DEMO_STALE.txt")).read().strip() if stale else None)
